@@ -303,28 +303,36 @@ def run_unit(unit, tier="quick", seeds=None):
         retried = {}
         for d in rl:
             prim = [s_ for s_ in d["spans"] if s_.get("is_primary")]
-            it_ = item_at(meta, prim[0]["line_start"]) if prim and os.path.basename(prim[0]["file_name"]) == os.path.basename(gen) else None
-            if it_ is None:
+            fnm = None
+            if prim and os.path.basename(prim[0]["file_name"]) == os.path.basename(gen):
+                # the span of a resource-limit report starts at the function header (or at a loop inside it)
+                it_ = item_at(meta, prim[0]["line_start"])
+                if it_ is not None and it_["kind"] == "fn":
+                    fnm = it_["name"].split("#")[-1].split("::")[-1].rstrip(">")
+                else:
+                    for ln_ in range(prim[0]["line_start"], max(0, prim[0]["line_start"] - 400), -1):
+                        hm_ = re.match(r"\s*(?:pub\s+)?(?:broadcast\s+)?(?:proof\s+|spec\s+|exec\s+)?fn\s+(\w+)", gen_lines[ln_ - 1])
+                        if hm_:
+                            fnm = hm_.group(1)
+                            break
+            if fnm is None:
                 retried = None
                 break
-            short = it_["name"].split("#")[-1]
-            mm_ = re.fullmatch(r"<(\w+) as (\w+)>::(\w+)", short)
-            if mm_:
-                short = mm_.group(3)
-            retried[short] = it_
+            retried[fnm] = d
         if retried:
             futs_ = {k: _ex.submit(run_verus, gen, (ucfg.get("verus_args") or []) + ["--rlimit", "100", "--num-threads", "1"], 900,
-                                   ("*" + k if "::" in k else "*::" + k), "6") for k in retried}
+                                   "*" + k, "6") for k in retried}
             res["rlimit_retries"] = []
             keep = [d for d in errs if d not in rl]
             for k, fu in futs_.items():
                 rc2, out2, diags2, err2, wall2, cmd2 = fu.result()
                 errs2 = [d for d in diags2 if d.get("level") == "error" and not d["message"].startswith("aborting due to")]
-                okv = out2 is not None and out2.get("verification-results", {}).get("success")
+                vr2 = (out2 or {}).get("verification-results", {})
+                okv = bool(vr2) and not vr2.get("encountered-error") and not vr2.get("encountered-vir-error") and vr2.get("errors") == 0 and vr2.get("verified", 0) >= 1
                 res["rlimit_retries"].append({"function": k, "wall_s": round(wall2, 1), "verified": bool(okv), "errors": len(errs2)})
                 if okv:
                     continue
-                keep += errs2 if errs2 else [d for d in rl if retried.get(k) is not None][:1]
+                keep += errs2 if errs2 else [retried[k]]
             errs = keep
             if not errs:
                 vr = dict(vr, success=True)
